@@ -218,21 +218,20 @@ Proof. repeat split; vm_compute; reflexivity. Qed.
 
 (* hypotheses of C06_ibb_overtaken_writer_is_aborted / C06_ibb_close_completes *)
 Example ex_iw_overtake :
-  exists s, run (iw_step false) iw_init [WStart; WSend; VCloseArrive] = Some s /\
+  exists s, run (iw_step false false) iw_init [WStart; WSend; VCloseArrive] = Some s /\
     iw_v s = VClose /\ writer_holds s = true /\ iw_broken s = false.
 Proof. eexists. split; [vm_compute; reflexivity|]. repeat split. Qed.
 
 (* close on an idle stream goes through the flush; a later write fails at once *)
 Example ex_iw_idle_close :
-  exists s, run (iw_step false) iw_init [VCloseArrive; VTry; VFlushDone; WStart] = Some s /\
+  exists s, run (iw_step false false) iw_init [VCloseArrive; VTry; VFlushDone; WStart] = Some s /\
     iw_closed s = true /\ iw_w s = WRet false /\ iw_v s = VIdle.
 Proof. eexists. split; [vm_compute; reflexivity|]. repeat split. Qed.
 
-(* hypothesis of C06_ibb_close_ends_serve_only_after_failed_packet: the state exists *)
-Example ex_iw_ended :
-  exists s, run (iw_step false) iw_init [WStart; WSend; WAck false; VCloseArrive; VTry; VFlushDone] = Some s /\
-    iw_v s = VEnded /\ iw_broken s = true /\ iw_closed s = false.
-Proof. eexists. split; [vm_compute; reflexivity|]. repeat split. Qed.
+(* the close after a refused packet is answered *)
+Example ex_iw_close_after_refused_packet :
+  iw_case_ok (mkiwcase [WStart; WSend; WAck false; VCloseArrive; VTry; VFlushDone] 4 0 true) = true.
+Proof. vm_compute. reflexivity. Qed.
 
 Example ex_iw_case_ok :
   iw_case_ok (mkiwcase (overtake_trace ++ [WAck true]) 3 0 true) = true /\
